@@ -37,11 +37,17 @@ def names(r, n):
     return base[:n]
 
 
+RICH_KEYS = ["a b", "k\\b", "t\tb", "q\"q", "x,y", "\u00fc\u00f1", "a=b", "#k", "-", "nl\nk", "back\\", "\\t", "sp ", " lead", "semi;k", "1", "0x1F"]
+
+
 def gen_recs(r, fmt):
     n = r.choice([1, 2, 3, 7, 20, 60])
     nf = r.choice([1, 2, 3, 5, 13])
     ks = names(r, nf)
     rich = fmt in ("csv", "json", "jsonl", "tsv")
+    if rich and r.chance(0.25):
+        # field names from the same content space as values (the header line is encoded and decoded like any other)
+        ks = r.sample(RICH_KEYS, min(nf, len(RICH_KEYS))) + ks[len(RICH_KEYS):]
     recs = []
     for i in range(n):
         rec = []
@@ -101,7 +107,7 @@ def build_case(r, tier):
         recs = [[(k, v.strip() or "v") for k, v in rec] for rec in recs]
     if fmt == "csv" and "crlf" in wopts:
         # Go-csv semantics kept by Miller: with CRLF line ends an embedded LF is written as CRLF too (R8: outside the domain)
-        recs = [[(k, v.replace("\n", " ")) for k, v in rec] for rec in recs]
+        recs = [[(k.replace("\n", " "), v.replace("\n", " ")) for k, v in rec] for rec in recs]
     return {"kind": "roundtrip", "fmt": fmt, "recs": recs, "wopts": wopts, "ropts": ropts, "cseed": r.randint(1, 1 << 40), "bom": fmt in ("csv", "csvlite") and r.chance(0.2),
             "nconf": 3 if tier == "quick" else 6}
 
@@ -385,8 +391,15 @@ def sample_of(case, verdict):
 
 def known_match(case, klass, detail, known):
     for kf in known:
-        if kf.get("status") == "known" and kf.get("class") == klass:
-            pred = kf.get("predicate", "")
+        if kf.get("status") != "known":
+            continue
+        pred = kf.get("predicate", "")
+        if pred == "tsv-key-needs-escaping":
+            # one root cause, several symptoms (round trip, fixed point, independent reader/writer): any class, narrow case
+            if case.get("fmt") == "tsv" and any(any(ch in k for ch in "\\\t\n\r") for rec in case.get("recs", []) for k, _ in rec):
+                return kf["id"]
+            continue
+        if kf.get("class") == klass:
             if pred == "bom" and case.get("bom"):
                 return kf["id"]
             if pred.startswith("fmt:") and case.get("fmt") in pred[4:].split(","):
